@@ -32,7 +32,7 @@ def check(an, rep, tier):
     rep.assumptions = pre('PRE-TT', 'PRE-D', 'PRE-DOC', 'PRE-IDX')
     rep.trusted = ['summary axiom of utils._maxvol (validated by C08)',
                    'NumPy model']
-    ds = (2, 3) if tier == 'quick' else (2, 3, 4)
+    ds = (2, 3) if tier == 'quick' else (2, 3, 4, 5)
     wh = {'cross.cross', 'cross._iter', 'cross._func', 'cross._func_eval'}
     vs = specs.variants('cross.cross')
     for vi in range(len(vs)):
